@@ -46,6 +46,10 @@ def make (c):
                     g [k][2] = 0.0
         return gen.clean (spec)
     rng  = np.random.default_rng ([c ['seed'], 3, c ['i']])
+    if c ['i'] % 10 == 4:
+        return make_half_loop (c)
+    if c ['i'] % 10 == 7:
+        return make_row (c)
     # every tenth case: separately grounded wires whose feet are a fraction of a segment apart (image theory does
     # not rest on the spacing rule of the guidelines; the statement lists "several grounded wires")
     close = c ['i'] % 10 == 9
@@ -61,6 +65,59 @@ def make (c):
     return gen.clean (spec)
 # end def make
 
+def make_row (c):
+    """ a row of exactly vertical monopoles (or elevated vertical dipoles) along a coordinate axis: all feet share
+        their x (or their y) coordinate; phased sources, a parasitic element now and then """
+    rng = np.random.default_rng ([c ['seed'], 34, c ['i']])
+    f, lam, segl, rad = gen.pick_scale (rng)
+    axis = int (rng.integers (0, 2))
+    x0  = float (rng.choice ([0.0, 0.0, 1.0, -2.5])) * lam * 0.1
+    k   = int (rng.integers (2, 4))
+    geo, feeds = [], []
+    pos = 0.0
+    for j in range (k):
+        n  = int (rng.integers (3, 10))
+        z0 = 0.0 if rng.random () < 0.75 else segl * float (rng.uniform (1.2, 3))
+        p  = [x0, pos] if axis == 0 else [pos, x0]
+        a, b = np.array (p + [z0]), np.array (p + [z0 + n * segl])
+        geo.append (gen.wire (n, a, b, rad) if rng.random () < 0.6 or z0 == 0 else gen.wire (n, b, a, rad))
+        kk = 0 if z0 == 0 else int (rng.integers (1, n))
+        feeds.append (dict (at = (a + (b - a) * kk / n).tolist (), dir = [0, 0, 1.0]))
+        pos += lam * float (rng.uniform (0.1, 0.4))
+    spec = dict (f = f, geo = geo, fam = 'row%d' % axis, media = [[0, 0, 0]], feeds = feeds, src = [], loads = [])
+    gen.add_sources (rng, spec, nmax = k)
+    return gen.clean (spec)
+# end def make_row
+
+def make_half_loop (c):
+    """ an arc standing on the plane with both feet (half loop), fed at a foot or up the arc; turned about the
+        vertical axis and shifted by options. Its image model is the closed circle of twice the segments. """
+    from pmv.oracles import georef
+    rng = np.random.default_rng ([c ['seed'], 33, c ['i']])
+    f, lam, segl, rad = gen.pick_scale (rng, 1 / 60., 1 / 22.)
+    n   = int (rng.integers (5, 16))
+    R   = n * segl / np.pi
+    a   = (0.0, 180.0) if rng.random () < 0.5 else (180.0, 0.0)
+    arc = dict (k = 'a', n = n, radius = R, a1 = a [0], a2 = a [1], r = rad, tag = None)
+    ang = float (np.round (rng.uniform (-180, 180), 2))
+    sh  = [float (x) for x in rng.uniform (-1, 1, 2) * lam * float (rng.choice ([0, 0.3, 2]))] + [0.0]
+    tr  = [['rotate', 1.0, [0.0, 0.0, ang], None], ['translate', 2.0, sh, None]] [: int (rng.integers (0, 3))]
+    spec = dict (f = f, geo = [arc], fam = 'halfloop', media = [[0, 0, 0]], src = [], loads = [], tr = tr)
+    nodes = georef.transformed_objects (spec) [0]['nodes']
+    k   = int (rng.choice ([0, 0, n, int (rng.integers (1, n))]))
+    d   = (nodes [min (k + 1, n)] - nodes [max (k - 1, 0)])
+    at  = np.array (nodes [k], float)
+    if k in (0, n):
+        at [2] = 0.0
+    spec ['src'] = [dict (at = at.tolist (), dir = d.tolist (), v = gen.rand_voltage (rng))]
+    if rng.random () < 0.4 and n >= 6:
+        k2 = (k + n // 2) % (n + 1)
+        if k2 not in (k, 0, n):
+            d2 = nodes [k2 + 1] - nodes [k2 - 1]
+            spec ['src'].append (dict (at = [float (x) for x in nodes [k2]], dir = d2.tolist (), v = gen.rand_voltage (rng)))
+    return spec
+# end def make_half_loop
+
 def mirrored (spec):
     """ free-space model: every elevated wire plus its mirror image, every
         grounded wire continued through the ground point into its image
@@ -74,6 +131,11 @@ def mirrored (spec):
             x ['taper'] = [swap [taper [0]] if rev else taper [0]] + list (taper [1:])
         geo.append (x)
     for g in spec ['geo']:
+        if g ['k'] == 'a':
+            # half loop on both feet -> the closed circle (starting in the image of the first foot's opposite side)
+            a1 = -180.0 if g ['a2'] > g ['a1'] else 180.0
+            geo.append (dict (g, n = 2 * g ['n'], a1 = a1, a2 = -a1))
+            continue
         p1, p2 = np.array (g ['p1']), np.array (g ['p2'])
         tp = g.get ('taper')
         if p1 [2] == 0:
@@ -117,7 +179,7 @@ def mirrored (spec):
                                , C = None if l ['C'] is None else l ['C'] / 2))
         else:
             raise corpus.Not_Convertible ('load kind %s in the ground point' % l ['k'])
-    return dict (f = spec ['f'], geo = geo, media = None, src = src, loads = loads, fam = spec.get ('fam'))
+    return dict (f = spec ['f'], geo = geo, media = None, src = src, loads = loads, fam = spec.get ('fam'), tr = copy.deepcopy (spec.get ('tr') or []))
 # end def mirrored
 
 def check (c):
